@@ -3,6 +3,7 @@ CONSTANTS
  Cap = 2
  Ops <- OpsN
  NestedOps <- NestedN
+ SrqOps = {}
 INVARIANT StbCoherent
 INVARIANT QueueBounded
 INVARIANT NoSrqWhileClear
